@@ -92,7 +92,7 @@ def _wrap_index(s, field, depth, counts):
     return "".join(out)
 
 
-def verilate(sources, top, prefix, workdir, manifest, extra_args=()):
+def verilate(sources, top, prefix, workdir, manifest, extra_args=(), with_prelude=True):
     """returns (C text, info). sources: paths relative to the repo."""
     mdir = os.path.join(workdir, "vl_" + prefix)
     os.makedirs(mdir, exist_ok=True)
@@ -152,7 +152,7 @@ def verilate(sources, top, prefix, workdir, manifest, extra_args=()):
         structs[name] = lines
         order.append((kind == "Syms", name))
         info["structs"][name] = len(lines)
-    out = [PRELUDE]
+    out = [PRELUDE] if with_prelude else []
     for _, n in order:
         out.append("typedef struct %s %s;" % (n, n))
     for _, n in sorted(order):
@@ -230,6 +230,8 @@ def verilate(sources, top, prefix, workdir, manifest, extra_args=()):
         out.append("void %s(%s___024root* vlSelf);" % (d, prefix))
     out.append("void %s_eval_step(%s__Syms *vlSymsp) %s" % (prefix, prefix, body))
     text = "\n".join(out)
+    info["members"] = {n: [re.sub(r"/\*.*?\*/", "", l).strip().rstrip(";") for l in structs[n]] for n in structs}
+    info["ctor_var_reset"] = sorted(set(re.findall(r"void (%s_\w+___ctor_var_reset)\(" % prefix, text)))
     info["sha256"] = hashlib.sha256(text.encode()).hexdigest()[:16]
     manifest.append(info)
     return text, info
